@@ -85,14 +85,217 @@ def run_sweep(out, tier, seed):
             "sweep_disagreements": len(bad_corr), "sweep_k_values": len(ks)}
 
 
+# ----------------------------------------------------------------------------- server mode
+OPCODE = {"ping": 1, "get_stats": 10, "snapshot": 11, "get_me": 20, "get_client": 21, "get_clients": 22, "get_user": 31, "get_users": 32,
+          "create_user": 33, "delete_user": 34, "update_user": 35, "update_permissions": 36, "change_password": 37, "login": 38, "logout": 39,
+          "get_pats": 41, "create_pat": 42, "delete_pat": 43, "login_pat": 44, "poll": 100, "send": 101, "flush": 102, "get_offset": 120,
+          "store_offset": 121, "delete_offset": 122, "get_stream": 200, "get_streams": 201, "create_stream": 202, "delete_stream": 203,
+          "update_stream": 204, "purge_stream": 205, "get_topic": 300, "get_topics": 301, "create_topic": 302, "delete_topic": 303,
+          "update_topic": 304, "purge_topic": 305, "create_partitions": 402, "delete_partitions": 403, "get_group": 600, "get_groups": 601,
+          "create_group": 602, "delete_group": 603, "join_group": 604, "leave_group": 605}
+PUBLIC = {"ping", "login", "login_pat"}
+# operation -> rule of Model/Perm.v consulted by the System method behind the handler (DESIGN.md appendix D)
+RULE = {"get_stream": "RGetStream", "get_streams": "RGetStreams", "create_stream": "RCreateStream", "update_stream": "RUpdateStream",
+        "delete_stream": "RDeleteStream", "purge_stream": "RPurgeStream", "get_topic": "RGetTopic", "get_topics": "RGetTopics",
+        "create_topic": "RCreateTopic", "update_topic": "RUpdateTopic", "delete_topic": "RDeleteTopic", "purge_topic": "RPurgeTopic",
+        "poll": "RPoll", "send": "RAppend", "flush": "RAppend", "create_group": "RCreateGroup", "delete_group": "RDeleteGroup",
+        "get_group": "RGetGroup", "get_groups": "RGetGroups", "join_group": "RJoinGroup", "leave_group": "RLeaveGroup",
+        "get_offset": "RGetOffset", "store_offset": "RStoreOffset", "delete_offset": "RDeleteOffset",
+        "create_partitions": "RCreatePartitions", "delete_partitions": "RDeletePartitions", "get_stats": "RGetStats",
+        "get_clients": "RGetClients", "get_client": "RGetClient", "get_user": "RGetUser", "get_users": "RGetUsers",
+        "create_user": "RCreateUser", "delete_user": "RDeleteUser", "update_user": "RUpdateUser",
+        "update_permissions": "RUpdatePermissions", "change_password": "RChangePassword"}
+
+
+def source_codes():
+    import re
+    src = open("/repo/sdk/src/command.rs").read()
+    return sorted(int(x) for x in re.findall(r"pub const [A-Z_]+_CODE: u32 = (\d+);", src))
+
+
+def op_instance(name, sid=1, tid=1, n=[0]):
+    """A well-formed request of each kind (targets exist, so that the only possible refusal is authn/authz)."""
+    n[0] += 1
+    k = n[0]
+    d = {"op": name, "stream": sid, "topic": tid}
+    extra = {
+        "create_stream": {"name": "x%d" % k}, "update_stream": {"name": "s%d" % sid}, "create_topic": {"name": "y%d" % k, "parts": 1},
+        "update_topic": {"name": "t%d" % tid}, "create_partitions": {"n": 1}, "delete_partitions": {"n": 1},
+        "send": {"part": {"kind": "pid", "id": 1}, "msgs": [{"id": 1000 + k, "len": 3}]},
+        "poll": {"partition": 1, "kind": "offset", "value": 0, "count": 1}, "flush": {"partition": 1},
+        "store_offset": {"partition": 1, "offset": 0, "consumer": {"kind": "consumer", "id": 50 + k}},
+        "get_offset": {"partition": 1, "consumer": {"kind": "consumer", "id": 9}},
+        "delete_offset": {"partition": 1, "consumer": {"kind": "consumer", "id": 9}},
+        "create_group": {"name": "z%d" % k}, "delete_group": {"group": 1}, "get_group": {"group": 1}, "join_group": {"group": 1},
+        "leave_group": {"group": 1}, "get_client": {"id": 1}, "get_user": {"uid": 1}, "create_user": {"user": "w%d" % k, "password": "secret123"},
+        "delete_user": {"uid": "victim"}, "update_user": {"uid": "victim", "inactive": False},
+        "update_permissions": {"uid": "victim", "perms": None}, "change_password": {"uid": "victim", "current": "victimpw1", "new": "victimpw1"},
+        "login": {"user": "iggy", "password": "iggy"}, "login_pat": {"token": "nonexistent-token"}, "create_pat": {"name": "p%d" % k}, "delete_pat": {"name": "nope"},
+    }
+    d.update(extra.get(name, {}))
+    return d
+
+
+UNIVERSE = [{"op": "create_stream", "name": "s1", "id": 1}, {"op": "create_stream", "name": "s2", "id": 2}] + [
+    x for sid in (1, 2) for tid in (1, 2) for x in (
+        {"op": "create_topic", "stream": sid, "name": "t%d" % tid, "parts": 2, "id": tid},
+        {"op": "create_group", "stream": sid, "topic": tid, "name": "g", "id": 1},
+        {"op": "send", "stream": sid, "topic": tid, "part": {"kind": "pid", "id": 1}, "msgs": [{"id": 1, "len": 3}]},
+        {"op": "store_offset", "stream": sid, "topic": tid, "partition": 1, "offset": 0, "consumer": {"kind": "consumer", "id": 9}})
+] + [{"op": "create_user", "user": "victim", "password": "victimpw1"}]
+DESTRUCTIVE = {"delete_stream", "purge_stream", "delete_topic", "purge_topic", "delete_partitions", "delete_group", "delete_user", "delete_offset",
+               "update_stream", "update_topic", "leave_group"}
+
+
+def rand_perms(rng):
+    def tp():
+        return [[rng.choice([1, 2]), rng.randrange(16)] for _ in range(rng.choice([1, 1, 2]))]
+
+    def sp():
+        t = rng.choice([None, None, tp(), tp()])
+        if t is not None:
+            t = [list(x) for x in {x[0]: x for x in t}.values()]
+        return [rng.choice([1, 2]), rng.choice([0, 0, 1 << rng.randrange(6), rng.randrange(64)]), t]
+
+    g = rng.choice([0, 0, 0, 1 << rng.randrange(10), rng.randrange(1024)])
+    streams = rng.choice([None, [sp()], [sp()], [sp(), sp()]])
+    if streams is not None:
+        streams = [list(x) for x in {x[0]: x for x in streams}.values()]
+    return {"g": g, "streams": streams}
+
+
+def perms_term(p):
+    if p is None:
+        return "None"
+    def sperm(bits, topics):
+        t = "None" if topics is None else "(Some [%s])" % "; ".join("(%d, tperm_of %d)" % (a, b) for a, b in topics)
+        return ("{| s_manage_stream := bit %d 0; s_read_stream := bit %d 1; s_manage_topics := bit %d 2; s_read_topics := bit %d 3; "
+                "s_poll := bit %d 4; s_send := bit %d 5; s_topics := %s |}") % (bits, bits, bits, bits, bits, bits, t)
+    st = "None" if p["streams"] is None else "(Some [%s])" % "; ".join("(%d, %s)" % (s[0], sperm(s[1], s[2])) for s in p["streams"])
+    return "(Some {| p_global := gperm_of %d; p_streams := %s |})" % (p["g"], st)
+
+
+def gen_server_trace(rng, tid):
+    ops = list(UNIVERSE)
+    meta = []   # (op index, kind, data)
+    # ---- part A: every command on a connection that never logged in
+    names = [n for n in OPCODE if n not in PUBLIC]
+    rng.shuffle(names)
+    for nme in names:
+        o = op_instance(nme, rng.choice([1, 2]), rng.choice([1, 2]))
+        o["c"] = "anon"
+        meta.append((len(ops), "unauth", nme))
+        ops.append(o)
+    meta.append((len(ops), "state", None))
+    ops.append({"op": "get_streams"})
+    meta.append((len(ops), "state", None))
+    ops.append({"op": "get_users"})
+    # ---- part B: users with permission records; requests decided by the CURRENT record
+    for u in range(rng.choice([2, 3])):
+        uname = "user%d" % u
+        perms = rand_perms(rng)
+        ops.append({"op": "create_user", "user": uname, "password": "password%d" % u, "perms": perms})
+        ops.append({"op": "login", "c": uname, "user": uname, "password": "password%d" % u})
+        for rnd in range(rng.choice([1, 2])):
+            if rnd > 0:
+                perms = rng.choice([rand_perms(rng), None])
+                ops.append({"op": "update_permissions", "uid": uname, "perms": perms})
+            cand = [n for n in RULE if n != "get_client"]
+            rng.shuffle(cand)
+            cand = cand[:rng.randrange(10, 22)]
+            cand.sort(key=lambda n: n in DESTRUCTIVE)
+            for nme in cand:
+                sid, tpc = rng.choice([1, 2]), rng.choice([1, 2])
+                o = op_instance(nme, sid, tpc)
+                o["c"] = uname
+                if nme == "join_group" or nme == "leave_group":
+                    pass
+                meta.append((len(ops), "authz", (nme, perms, sid, tpc)))
+                ops.append(o)
+                if nme in DESTRUCTIVE or nme in ("create_partitions",):
+                    ops.extend(UNIVERSE)   # root re-creates whatever was removed (errors for existing entities are ignored)
+        if rng.random() < 0.5:
+            ops.append({"op": "delete_user", "uid": uname})
+            for nme in rng.sample(sorted(x for x in RULE if x != "get_client"), 4):
+                sid, tpc = rng.choice([1, 2]), rng.choice([1, 2])
+                o = op_instance(nme, sid, tpc)
+                o["c"] = uname
+                meta.append((len(ops), "authz", (nme, None, sid, tpc)))
+                ops.append(o)
+    return {"id": tid, "cfg": {"req": 1000, "seg_size": 1000000, "cache": False}, "ops": ops, "meta": meta}
+
+
+def run_server(out, tier, seed):
+    rng = util.Rng(seed * 31337 + 9)
+    n = 10 if tier == "quick" else 120
+    cov = {"server_traces": n}
+    codes = source_codes()
+    if sorted(OPCODE.values()) != codes:
+        out.violation("command-list", {"kind": "correspondence", "no_longer_checks": "corr_C09_commands (the check's command table vs sdk/src/command.rs)",
+                                       "missing": sorted(set(codes) - set(OPCODE.values())), "extra": sorted(set(OPCODE.values()) - set(codes))},
+                      no_failing_input=True)
+    traces = [gen_server_trace(rng, "C09-s%d" % i) for i in range(n)]
+    slim = [{k: v for k, v in t.items() if k != "meta"} for t in traces]
+    impl = harness.run_traces("srv", slim, shards=min(8, n))
+    terms, where = [], []
+    unauth_checked = authz_checked = 0
+    reported = 0
+    for t in traces:
+        ob = impl[t["id"]]
+        if "crash" in ob or "init_err" in ob:
+            out.violation("crash-%s" % t["id"], {"kind": "impl-crash", "mode": "srv", "trace": {k: v for k, v in t.items() if k != "meta"}, "detail": str(ob)[-1500:]})
+            continue
+        outs = ob["outs"]
+        for (i, kind, data) in t["meta"]:
+            o = outs[i]
+            if kind == "unauth":
+                unauth_checked += 1
+                if not (o.get("r") == "err" and o.get("name") in ("unauthenticated",)):
+                    if reported < 3:
+                        out.violation("unauth-%s-%s" % (t["id"], data), {"kind": "spec-monitor", "mode": "srv", "what": "request answered on a connection that never authenticated",
+                                                                        "command": data, "code": OPCODE[data], "response": o,
+                                                                        "trace": {"id": t["id"], "cfg": t["cfg"], "ops": t["ops"][:i + 1]}})
+                        reported += 1
+            elif kind == "authz":
+                nme, perms, sid, tpc = data
+                terms.append("op_allowed %s %s %d %d" % (perms_term(perms), RULE[nme], sid, tpc))
+                where.append((t, i, data, o))
+    vals = coqrun.eval_terms("C09srv", "Base.Tactics Model.Perm", terms, shard_size=200)
+    disagreements = 0
+    for (t, i, data, o), allowed in zip(where, vals):
+        authz_checked += 1
+        refused = (o.get("r") == "err" and o.get("name") == "unauthorized") or (o.get("r") == "ok" and o.get("some") is False)
+        crashed = "crash" in o
+        if crashed or (refused == bool(allowed)):
+            # allowed by the model but refused, or refused by the model but performed
+            disagreements += 1
+            if reported < 3:
+                nme, perms, sid, tpc = data
+                kind = "spec-monitor" if (not refused and not allowed) else "correspondence"
+                payload = {"kind": kind, "mode": "srv", "operation": nme, "rule": RULE[nme], "user_permissions": perms, "target": [sid, tpc],
+                           "model_allowed": bool(allowed), "response": o, "trace": {"id": t["id"], "cfg": t["cfg"], "ops": t["ops"][:i + 1]}}
+                if kind == "spec-monitor":
+                    payload["what"] = "request performed although the user's current permission record does not grant it"
+                    out.violation("authz-%s-%d" % (t["id"], i), payload)
+                else:
+                    payload["no_longer_checks"] = "corr_C09_handlers (operation -> rule table of Model/Perm.v vs the System methods)"
+                    out.violation("authz-%s-%d" % (t["id"], i), payload, no_failing_input=True)
+                reported += 1
+    cov.update({"unauthenticated_requests_checked": unauth_checked, "authorization_decisions_checked": authz_checked,
+                "handler_disagreements": disagreements, "command_codes_in_source": len(codes)})
+    return cov
+
+
 def run(out, tier, seed, gate):
     t0 = time.time()
     cov = run_sweep(out, tier, seed)
+    cov.update(run_server(out, tier, seed))
     cov.update({
-        "evaluations": cov["sweep_records"] * 35, "distinct_nontrivial": cov["sweep_distinct_outcomes"],
-        "traces_validated_against_impl": cov["sweep_records"],
+        "evaluations": cov["sweep_records"] * 35 + cov["authorization_decisions_checked"] + cov["unauthenticated_requests_checked"],
+        "distinct_nontrivial": cov["sweep_distinct_outcomes"],
+        "traces_validated_against_impl": cov["sweep_records"] + cov["server_traces"],
         "exhaustive": cov["sweep_exhaustive"],
-        "rule": "all 1024 global flag sets x stream-3 records (absent | 64 flag sets x {no topic table | table without topic 4 | 16 topic-4 entries}) x 35 rule functions; quick tier samples the stream-3 records, thorough enumerates all 1153; distinct = distinct 35-bit outcome vectors",
+        "rule": "pure: all 1024 global flag sets x stream-3 records (absent | 64 flag sets x {no topic table | table without topic 4 | 16 topic-4 entries}) x 35 rule functions (quick samples the stream records, thorough enumerates all 1153); server: every command code of sdk/src/command.rs on an unauthenticated TCP connection, and users with random permission records issuing requests decided by the model's rule for that operation, with permission updates and user deletions on open connections; distinct = distinct 35-bit outcome vectors",
         "samples": [{"g": 0, "k": 1, "record": describe(0, 1)}, {"g": 130, "k": 66, "record": describe(130, 66)}],
         "corr_wall_s": round(time.time() - t0, 2),
     })
